@@ -233,8 +233,20 @@ impl Walrus {
                         .find(|(_, b)| b.id == tail_block_id)
                         .map(|(idx, _)| idx)
                     {
-                        info.cur_block_idx = idx;
-                        info.cur_block_offset = tail_off.min(info.chain[idx].used);
+                        // The tail position of this call may be stale: another consumer
+                        // may have read further in that block (or past it) while the
+                        // column lock was released. Never fold the cursor backwards.
+                        let mut fold_off = tail_off;
+                        if info.tail_block_id == tail_block_id {
+                            fold_off = fold_off.max(info.tail_offset);
+                        }
+                        let fold_off = fold_off.min(info.chain[idx].used);
+                        if idx > info.cur_block_idx
+                            || (idx == info.cur_block_idx && fold_off > info.cur_block_offset)
+                        {
+                            info.cur_block_idx = idx;
+                            info.cur_block_offset = fold_off;
+                        }
                         if checkpoint {
                             if self.should_persist(&mut info, true) {
                                 if let Ok(mut idx_guard) = self.read_offset_index.write() {
